@@ -10,7 +10,7 @@ from common import R, fl
 
 from common import wiring_pre_build as pre_build  # noqa: E402,F401
 
-LEAN_MODULES = ["PyomaVerif.Props.C11", "PyomaVerif.Mutants.C11", "PyomaVerif.Props.WiringMpe"]
+LEAN_MODULES = ["PyomaVerif.Props.C11", "PyomaVerif.Mutants.C11", "PyomaVerif.Props.WiringMpe", "PyomaVerif.Props.C11Plscf"]
 THEOREMS = [
     # call-site wiring of the class layer, regenerated from /repo on every run (translate_wiring.py)
     "PV.WiringMpe.C11_ssi_mpe_args",
@@ -35,6 +35,28 @@ THEOREMS = [
     "PV.C11.Mutants.any_close_mutant_only_partial",
     "PV.C11.Mutants.plscf_label7_finds_nothing",
     "PV.C11.Mutants.plscf_label1_would_find",
+    # pLSCF find_min as coded, for any label value (the pinned 7 and the repair 1), and where the repair still deviates
+    "PV.C11.C11_plscf_find_min_found",
+    "PV.C11.C11_plscf_find_min_not_found",
+    "PV.C11.C11_plscf_find_min_char",
+    "PV.C11.C11_plscf_find_min_degenerate",
+    "PV.C11.C11_plscf_relabel",
+    "PV.C11.plscfColTest_iff",
+    "PV.C11.onePerBand_passes",
+    "PV.C11.C11_plscf_find_min_premises",
+    "PV.C11.C11_plscf_find_min_order_iff",
+    "PV.C11.Mutants.plscf_lab1_last_column_mixes",
+    "PV.C11.Mutants.plscf_lab1_single_column_minus_one",
+    "PV.C11.Mutants.plscf_lab1_any_accepts_far_pole",
+    "PV.C11.Mutants.plscf_lab1_counts_total_not_per_band",
+    "PV.C11.Mutants.plscf_lab1_returns_without_order",
+    "PV.C11.Mutants.plscf_lab1_duplicate_counts_once",
+    "PV.C11.Mutants.plscf_lab1_agrees_on_example",
+    # SSI find_min: "one distinct stable value", not "one stable pole"
+    "PV.C11.C11_find_min_value_set_only",
+    "PV.C11.C11_find_min_from_order_first",
+    "PV.C11.C11_find_min_qual_iff_poles",
+    "PV.C11.Mutants.ssi_find_min_counts_values_not_poles",
 ]
 RULE = (
     "correspondence: ssi.SSI_mpe / plscf.pLSCF_mpe vs Mpe.ssiMpe / Mpe.plscfMpe on random pole tables (<= 10x10, values on a "
@@ -44,13 +66,22 @@ RULE = (
     "the stored result fields after SSIcov.mpe / pLSCF.mpe equal the function outputs. Cases with a pole within 1e-9 of a "
     "tolerance edge are skipped and counted. oracle: brute-force restatement of the property (requests ascending, disjoint "
     "bands, orders with a retained pole) on the functions and through the classes after real runs. distinct = distinct "
-    "(function, order form, rows, cols, #requests, outcome)"
+    "(function, order form, rows, cols, #requests, outcome). find_min in depth: pLSCF_mpe[find_min-lab7] = the same generator with "
+    "the stable poles labelled 7 (the label the pinned routine selects; 1..4 columns so that the never-tested last column and the "
+    "index wrap occur), SSI_mpe/pLSCF_mpe[find_min-dup] = stable poles duplicated at exactly equal frequency in another row, "
+    "[find_min-witness] = the kernel-checked witness tables of Mutants/C11.lean run on the real functions"
 )
 EXTRA_TRUSTED = ["float rounding in np.isclose / band edges (poles within 1e-9 of an edge are not judged)"]
 ASSUMPTIONS = [
     "numpy nanargmin/isclose/unique/where semantics are mirrored by NanTable (validated by the correspondence)",
     "orders are non-negative column indices (negative Python indices not modelled)",
     "'within tolerance' for find_min = inside the band the routine uses (SSI: [f-rtol, f+rtol]; pLSCF: (f-deltaf, f+deltaf)) and np.isclose(pole, f, rtol)",
+    "SSI find_min: 'exactly one stable pole' is proved (and coded) as 'exactly one distinct stable frequency value'; stable poles of exactly "
+    "equal frequency count once and the first row is returned (C11_find_min_value_set_only, C11_find_min_from_order_first, "
+    "Mutants.ssi_find_min_counts_values_not_poles); the oracle does not judge such tables",
+    "pLSCF find_min: characterised as coded for any label value (C11_plscf_find_min_char); even with the label repaired it meets the "
+    "property only if the qualifying order is not the last column and no lower column passes the weaker coded test "
+    "(C11_plscf_find_min_premises, Mutants.plscf_lab1_*)",
 ]
 
 GRID = 1024
@@ -297,6 +328,102 @@ def outcome(o):
     return f"n{len(o['fn'])}-{'none' if o['order_out'] is None else 'ord'}"
 
 
+
+# ----------------------------------------------------------------------------- find_min in depth
+def gen_find_min_case(ctx, lab7=False, dup=False):
+    """a find_min call on a structured table; lab7: the stable poles carry the label 7 (what the pinned pLSCF_mpe selects),
+    few columns so that 'qualifying column is the last one' and the single-column wrap occur; dup: some stable poles are
+    duplicated at exactly the same frequency in a free row of the same column (own damping and shape)"""
+    rng = ctx.rng
+    case = gen_case(ctx, maxc=rng.choice([1, 2, 2, 3, 3, 4, 6, 10]) if lab7 else 10)
+    case["order"] = "find_min"
+    case["kind"] = "find_min"
+    Fn, Xi, Phi, Lab = case["Fn"], case["Xi"], case["Phi"], case["Lab"]
+    rows, cols = Fn.shape
+    ndup = 0
+    if dup:
+        for o in range(cols):
+            if rng.random() < 0.6:
+                src = [r for r in range(rows) if Lab[r, o] == 1 and not math.isnan(Fn[r, o])]
+                free = [r for r in range(rows) if math.isnan(Fn[r, o])]
+                if src and free:
+                    r0, r1 = rng.choice(src), rng.choice(free)
+                    Fn[r1, o] = Fn[r0, o]
+                    Xi[r1, o] = rng.randint(1, 400) / 4096
+                    Phi[r1, o, :] = [complex(rng.randint(-8, 8) / 8, rng.randint(-8, 8) / 8) for _ in range(Phi.shape[2])]
+                    Lab[r1, o] = 1
+                    if case["cov"] is not None:
+                        for k in ("fn", "xi"):
+                            case["cov"][k][r1, o] = rng.randint(1, 99) / 8192
+                        case["cov"]["phi"][r1, o, :] = [rng.randint(1, 99) / 8192 for _ in range(Phi.shape[2])]
+                    ndup += 1
+    if lab7:
+        case["Lab"] = np.where(Lab == 1, 7, Lab)
+    case["ndup"] = ndup
+    return case
+
+
+def _tbl(x):
+    return np.array([[float("nan") if v is None else v for v in row] for row in x], dtype=float)
+
+
+def witness_cases():
+    """the witness tables of Mutants/C11.lean (labels 0/1; for pLSCF_mpe the 1 is written as 7)"""
+    W = [
+        ("last_column", [[2.03, 2.01], [None, 5.01]], [[1, 1], [0, 1]], 0.05, 0.01),
+        ("single_column", [[2.01], [5.01]], [[1], [1]], 0.05, 0.01),
+        ("any_close", [[2.005, 2.005, 2.005], [5.04, 5.01, 5.01]], [[1, 1, 1], [1, 1, 1]], 0.05, 0.005),
+        ("total_count", [[2.0, 2.0, 2.0], [2.03, 5.0, 5.0]], [[1, 1, 1], [1, 1, 1]], 0.05, 0.01),
+        ("no_order", [[None, None, 2.01], [None, 5.01, None]], [[0, 0, 1], [0, 1, 0]], 0.05, 0.01),
+        ("duplicate", [[2.01, 2.01], [2.01, None], [5.01, 5.01]], [[1, 1], [1, 0], [1, 1]], 0.05, 0.01),
+    ]
+    for name, fn, lab, w, rtol in W:
+        Fn = _tbl(fn)
+        rows, cols = Fn.shape
+        Xi = np.array([[(i + 1) / 128 + o / 1024 for o in range(cols)] for i in range(rows)])
+        Phi = np.array([[[complex(i, o)] for o in range(cols)] for i in range(rows)])
+        yield name, {"freq": [2.0, 5.0], "Fn": Fn, "Xi": Xi, "Phi": Phi, "Lab": np.array(lab), "order": "find_min", "rtol": rtol,
+                     "deltaf": w, "cov": None, "kind": "find_min"}
+
+
+def corr_find_min_depth(ctx):
+    def one(case, which, tag):
+        rows, cols, d = case["Phi"].shape
+        call, op, w = (call_ssi, "ssi_mpe", case["rtol"]) if which == "ssi" else (call_plscf, "plscf_mpe", case["deltaf"])
+        if near_edge(case, w):
+            ctx.skipped += 1
+            ctx.count("corr_skipped_near_edge")
+            return None
+        inp = model_inp(case, which)
+        impl = call(case)
+        model = ctx.model(op, **inp)
+        fn = f"{'SSI_mpe' if which == 'ssi' else 'pLSCF_mpe'}[find_min-{tag}]"
+        ctx.corr(fn, same_out(model, impl), inp, model, impl, (rows, cols, len(case["freq"]), outcome(impl), repr(impl.get("order_out"))))
+        return impl
+
+    for _ in range(ctx.n(500, 5000)):
+        case = gen_find_min_case(ctx, lab7=True, dup=ctx.rng.random() < 0.3)
+        impl = one(case, "plscf", "lab7")
+        if impl is not None and "exc" not in impl:
+            cols = case["Fn"].shape[1]
+            oo = impl["order_out"]
+            # order_out == cols-2 is the `break` outcome or a pass of the last-but-one column; below it a column passed
+            ctx.count("corr_plscf_lab7_" + ("wrap_minus1" if oo == -1 else "order_cols-2" if oo == cols - 2 else "lower_order")
+                      + ("_params" if impl["xi"] else "_noparams") + ("_fn" if impl["fn"] else "_nofn"))
+    for _ in range(ctx.n(300, 3000)):
+        case = gen_find_min_case(ctx, dup=True)
+        for which in ("ssi", "plscf"):
+            impl = one(case, which, "dup")
+            if which == "ssi" and impl is not None and "exc" not in impl:
+                ctx.count(f"corr_ssi_dup_{'found' if impl['fn'] else 'nothing'}_{min(case['ndup'], 3)}dups")
+    for name, case in witness_cases():
+        one(dict(case, rtol=0.05), "ssi", "witness")  # SSI's band is [f - rtol, f + rtol]
+        c7 = dict(case)
+        c7["Lab"] = case["Lab"] * 7
+        one(c7, "plscf", "witness")
+        ctx.count("corr_witness_" + name)
+
+
 # ----------------------------------------------------------------------------- class level
 _RUNS = {}
 
@@ -422,6 +549,7 @@ def correspondence(ctx):
         if k == 0:
             ctx.sample({"freq": case["freq"], "order": case["order"], "rtol": case["rtol"], "rows": rows, "cols": cols,
                         "Fn_col0": case["Fn"][:, 0].tolist()})
+    corr_find_min_depth(ctx)
     # through the classes: stored fields == function outputs == model
     for (kind, alg, ss) in real_runs(ctx, ctx.n(6, 15)):
         for _ in range(ctx.n(15, 60)):
